@@ -897,7 +897,7 @@ func (m *Machine) formatInt(t *Term, signed bool, width int) *Term {
 // (?|NULL, ...), UPDATE SET col = ?|NULL, ... [WHERE c], DELETE [WHERE c], with c a conjunction of
 // "col = ?", "col IS NULL", "col IS NOT NULL".
 type sqlStmt struct {
-	op       int   // 0 unknown, 1 create, 2 select, 3 insert, 4 update, 5 delete
+	op       int   // 0 unknown, 1 create, 2 select, 3 insert, 4 update, 5 delete; transaction control: 6 SAVEPOINT, 7 RELEASE, 8 ROLLBACK TO, 9 BEGIN, 10 COMMIT / END, 11 ROLLBACK
 	conflict int   // insert: 0 plain (error on conflict), 1 OR REPLACE, 2 OR IGNORE
 	cols     []int // select: result columns; insert: target columns; update: SET columns (1 logID, 2 chkpt, 3 range)
 	lits     []int // insert / update, parallel to cols: 0 = "?" placeholder, 1 = NULL literal
@@ -973,6 +973,48 @@ func parseSQL(q string) sqlStmt {
 				return nil, false
 			}
 		}
+	}
+	// transaction control written as plain statements
+	tail := func(opt ...string) bool { // optional noise words, then the end or one name
+		for _, w := range opt {
+			eat(w)
+		}
+		return len(t) <= 1
+	}
+	switch {
+	case eat("savepoint"):
+		if len(t) == 1 {
+			return sqlStmt{op: 6}
+		}
+		return bad
+	case eat("release"):
+		if tail("savepoint") && len(t) == 1 {
+			return sqlStmt{op: 7}
+		}
+		return bad
+	case eat("rollback", "to"):
+		if tail("savepoint") && len(t) == 1 {
+			return sqlStmt{op: 8}
+		}
+		return bad
+	case eat("rollback"):
+		if tail("transaction") && len(t) == 0 {
+			return sqlStmt{op: 11}
+		}
+		return bad
+	case eat("begin"):
+		eat("deferred")
+		eat("immediate")
+		eat("exclusive")
+		if tail("transaction") && len(t) == 0 {
+			return sqlStmt{op: 9}
+		}
+		return bad
+	case eat("commit") || eat("end"):
+		if tail("transaction") && len(t) == 0 {
+			return sqlStmt{op: 10}
+		}
+		return bad
 	}
 	switch {
 	case eat("create", "table", "if", "not", "exists", "chkpts", "("):
